@@ -42,7 +42,7 @@ C[MC + 'mod_mass'] = dict(params=dict(mod='ModList_item'), returns='real', pure=
 # the four stores (number argument, replace mode): assumed frame contracts, exercised by bounded/C20.py (add_mods round trips)
 C[PA + 'add_internal_mod'] = dict(
     params=dict(self='Annotation', index='int', mods='real', append='bool'), returns='None', mutates=['self'], trusted=True,
-    requires=[('replace-mode', 'not append')], bounded_by='add_* stores: add_internal_mod / add_nterm_mods / add_cterm_mods proved in contracts/stores.py; the others bounded/C20.py',
+    requires=[('replace-mode', 'not append')], bounded_by='add_* stores: bodies proved (with exact values) in contracts/stores.py',
     ensures=[('stored-at-index', 'self_final._internal_mods is not None and (index in some(self_final._internal_mods)) and '
                                  'some(self_final._internal_mods)[index] == NUM1(mods)'),
              ('other-positions-kept', 'forall(lambda j: implies(j != index, im_has(self_final, j) == im_has(self, j) and '
@@ -51,7 +51,7 @@ C[PA + 'add_internal_mod'] = dict(
 for _f in ('nterm', 'cterm', 'labile'):
     C[PA + 'add_%s_mods' % _f] = dict(
         params=dict(self='Annotation', mods='real', append='bool'), returns='None', mutates=['self'], trusted=True,
-        requires=[('replace-mode', 'not append')], bounded_by='add_* stores: add_internal_mod / add_nterm_mods / add_cterm_mods proved in contracts/stores.py; the others bounded/C20.py',
+        requires=[('replace-mode', 'not append')], bounded_by='add_* stores: bodies proved (with exact values) in contracts/stores.py',
         ensures=[('stored', 'self_final._%s_mods is not None and some(self_final._%s_mods) == NUM1(mods)' % (_f, _f)),
                  ('nothing-else', _same_except('_%s_mods' % _f))], raises={})
 
